@@ -14,13 +14,30 @@ def tab(rng, foreign=False):
     return ["tab", name, schema, alias]
 
 
+def gen_sub(rng):
+    """a sub-query: named explicitly, like the names a statement hands out (sq0, sq1), or not named yet"""
+    return ["sub", rng.choice([None, None, "sq0", "sq1", "s", "s"]), rng.choice(["c", "d"]), rng.randrange(3)]
+
+
+def sub_neighbours(rng, t):
+    """sub-queries a criterion may confuse with the source t: same alias over another table, same alias and table but
+    another sub-query, another alias, no alias"""
+    _, alias, src, uid = t
+    return rng.choice([
+        ["sub", alias, "d" if src == "c" else "c", uid],
+        ["sub", alias, src, (uid + 1) % 3],
+        ["sub", "other", src, uid],
+        ["sub", None, src, (uid + 2) % 3],
+    ])
+
+
 def source(rng):
     r = rng.random()
-    if r < 0.8:
+    if r < 0.7:
         return tab(rng)
-    if r < 0.9:
+    if r < 0.8:
         return ["alq", rng.choice(["w1", "w2"])]
-    return ["sub", rng.choice(["sq1", "sq2"])]
+    return gen_sub(rng)
 
 
 def known_sources(sp):
@@ -48,7 +65,10 @@ def gen_crit(rng, sp, item, p_foreign, p_none):
                 else:
                     side.append([tab(rng, foreign=rng.random() < 0.5), "id"])
             else:
-                side.append([rng.choice(pool), rng.choice(["id", "k"])])
+                t = rng.choice(pool)
+                if t[0] == "sub" and rng.random() < 0.35:
+                    t = sub_neighbours(rng, t if t[1] is not None or t is not item else sp._tagged(t))
+                side.append([t, rng.choice(["id", "k"])])
         pairs.append(side)
     return pairs
 
